@@ -4,7 +4,9 @@ package c08
 
 import (
 	"context"
+	"fmt"
 	"strings"
+	"testing"
 
 	"k8s.io/apimachinery/pkg/runtime/schema"
 	"sigs.k8s.io/controller-runtime/pkg/client"
@@ -116,7 +118,7 @@ func (w *world) interloped(run *verifsim.Run, a act, gk schema.GroupKind) client
 	h.before = func(call string) {
 		idx := run.N // the index the upcoming call will get
 		defer func() {
-			if call == "list "+gk.Kind+"List" {
+			if call == "list "+gk.Kind || call == "list "+gk.Kind+"List" {
 				listed = true
 			}
 		}()
@@ -164,4 +166,103 @@ func afterList(calls []string, k int, gk schema.GroupKind) bool {
 		}
 	}
 	return false
+}
+
+// ---------------------------------------------------------------------------
+// deterministic sweep
+
+var followUp = []act{{Op: "rec-def"}, {Op: "rec-off"}, {Op: "rec-claim"}, {Op: "rec-xr"}, {Op: "gc"}, {Op: "rec-def"}, {Op: "rec-off"}}
+
+// TestVerifC08Interleavings: from every state reachable by a short fault-free
+// teardown prefix after the XRD was deleted, each XRD reconcile is run with
+// every interloper before every one of its API calls, followed by a fixed
+// fault-free tail.
+func TestVerifC08Interleavings(t *testing.T) {
+	rec := verifkit.New(t, "C08", "interleavings at API-call granularity: for every state reached by <= N fault-free teardown steps after `user deletes XRD`, the definition and the offered reconcile are each run with every interloper (claim reconcile, XR reconcile, user creates an XR, user creates a claim, GC step; controllers only while the engine runs them) before every API call index, then a fault-free tail; monitors (a)-(d) unchanged; non-trivial = the interloper ran after the reconcile's first write or after its instance list")
+	depth := 4
+	if verifkit.Tier() == "thorough" {
+		depth = 6
+	}
+	prefixOps := []act{{Op: "rec-def"}, {Op: "rec-off"}, {Op: "rec-claim"}, {Op: "rec-xr"}, {Op: "gc"}, {Op: "del-claim"}}
+	shard, shards := verifkit.Shard()
+	for _, fg := range []bool{false, true} {
+		u := universe{Claims: 1, Templates: 1, Foreground: []bool{fg}, Stage: stageFull, Seed: 13}
+		w := newWorld(u, rec)
+		type base struct {
+			snap *worldSnap
+			path []act
+		}
+		w.do(act{Op: "del-xrd"})
+		seen := map[string]bool{w.digest(): true}
+		level := []base{{w.snapshot(), []act{{Op: "del-xrd"}}}}
+		all := append([]base(nil), level...)
+		for d := 0; d < depth; d++ {
+			var next []base
+			for _, b := range level {
+				for _, a := range prefixOps {
+					w.restore(b.snap)
+					w.do(a)
+					if v := w.sim.TakeViolations(); len(v) > 0 {
+						t.Fatalf("prefix %s + %s: %v", verifkit.JSON(b.path), a, v)
+					}
+					if dg := w.digest(); !seen[dg] {
+						seen[dg] = true
+						nb := base{w.snapshot(), append(append([]act(nil), b.path...), a)}
+						next = append(next, nb)
+						all = append(all, nb)
+					}
+				}
+			}
+			level = next
+		}
+		rec.AddExtra("interleaving_base_states", len(all))
+		for bi, b := range all {
+			if bi%shards != shard {
+				continue
+			}
+			for _, recOp := range []string{"rec-def", "rec-off"} {
+				gk := xrGK
+				if recOp == "rec-off" {
+					gk = claimGK
+				}
+				w.restore(b.snap)
+				w.do(act{Op: recOp})
+				probe := w.lastRun
+				calls := append([]string(nil), probe.Calls...)
+				firstWrite := probe.FirstWrite
+				for n := 0; n < len(calls); n++ {
+					for _, io := range interloperOps {
+						mid := io
+						a := act{Op: recOp, Mid: &mid, MidK: n}
+						w.restore(b.snap)
+						w.midRan, w.midExcluded = 0, 0
+						out := w.do(a)
+						rec.Eval()
+						fail := func(stage string) {
+							if v := w.sim.TakeViolations(); len(v) > 0 {
+								t.Fatalf("interleaving (%s) universe %s\nprefix %s\naction %s -> %s (calls of the undisturbed reconcile: %v)\n%s", stage, verifkit.JSON(u), verifkit.JSON(b.path), a, out, calls, strings.Join(v, "\n"))
+							}
+						}
+						fail("during the reconcile")
+						for _, f := range followUp {
+							w.do(f)
+							fail(fmt.Sprintf("tail, after %s", f))
+						}
+						rec.Label("interloper:" + io.Op)
+						if w.midExcluded > 0 {
+							rec.Label("interloper-excluded-known:" + io.Op)
+						}
+						if w.midRan > 0 && (afterList(calls, n, gk) || (firstWrite >= 0 && n > firstWrite)) {
+							if afterList(calls, n, gk) {
+								rec.Label("interloper-after-instance-list")
+							}
+							rec.NonTrivial(fmt.Sprintf("il|%v|%s|%s", fg, verifkit.JSON(b.path), a), func() any {
+								return map[string]any{"universe": u, "prefix": b.path, "action": a, "calls": calls}
+							})
+						}
+					}
+				}
+			}
+		}
+	}
 }
